@@ -104,7 +104,9 @@ example : initReimToTnx32 16 (pow2 10) 18 true = some .avx ∧ reimToTnx32Simple
 
 /-- `rnx_divide_by_m_ref(n, m, res, a)`: cell `i < n` becomes the correctly rounded product of `a[i]` and
     `invm = RN(1/m)` (the model's `F64.div`, bit-exact against `divsd`), the other cells are untouched.
-    `val (F64.mul x y) = rnd (val x · val y)` says "correctly rounded" (`rnd`: round to nearest even binary64). -/
+    `val (F64.mul x y) = rnd (val x · val y)` says "correctly rounded" (`rnd`: round to nearest even binary64).
+    About the MODEL for every pattern; it describes the C code only for finite `a[i]` and finite non-zero `m`
+    (Inf/NaN/zero-divisor behaviour is not modelled by `Spq.F64`; the stream `cv_rnx` covers those cases oracle-only). -/
 theorem rnx_divide_spec (n m : Nat) (res a : Array Nat) (hn : n ≤ res.size) :
     (rnxDivideByMRef n m res a).size = res.size ∧
     (∀ i, i < n → (rnxDivideByMRef n m res a).getD i 0 = F64.mul (a.getD i 0) (F64.div Conv.D_ONE m) ∧
@@ -143,6 +145,7 @@ theorem rnx_divide_avx_outside_domain (n m : Nat) (res a : Array Nat) :
     the normal range (no underflow, no overflow); every accepted `n` -/
 theorem rnx_divide_pow2_exact (n : Nat) (j : Int) (res a : Array Nat) (hj1 : -1022 ≤ j) (hj2 : j ≤ 1022)
     (hn : n ≤ res.size) (i : Nat) (hi : i < n)
+    (_hfin : F64.isFinite (a.getD i 0) = true)   -- Inf/NaN patterns are not modelled (the soft-float decodes exponent 2047 as a finite number)
     (hq : val (a.getD i 0) = 0 ∨
       (minNormal ≤ |val (a.getD i 0) * 2 ^ (-j)| ∧ |val (a.getD i 0) * 2 ^ (-j)| < 2 ^ (1024 : ℤ))) :
     val (pow2 j) = 2 ^ j ∧
